@@ -93,6 +93,19 @@ reg('C01', 'exploration',
     'stencil exceeds 2e5 boxes per query are skipped as too costly; a '
     'watchdog firing is inconclusive, never a violation.')
 
+reg('C17', 'exploration',
+    'permutation check of the spatially ordered index list, uid-keyed row '
+    'equality over typed/strided properties before and after '
+    'spatially_order_particles, alignment postcondition, and the C01 '
+    'brute-force neighbour oracle after the following update; replayed under '
+    'gcc ASan+UBSan',
+    'Held for the seven implementing classes on every generated case '
+    '(1-2 arrays, 8 distributions, 1-3 D, strides 1/2/3/9, four C types, '
+    'Remote/Ghost tags in half the cases, 1-4 repeated re-orderings); the '
+    'StratifiedSFCNNPS memory/neighbour defects are listed as known.',
+    'z-order family exercised on single arrays only and inputs contain no '
+    'exactly coincident particles (both are listed C01 findings).')
+
 _pending = {
 }
 for _i in range(1, 21):
